@@ -737,14 +737,18 @@ func (c *Client) receipts(ctx context.Context, url string, bm blockmap, start, l
 		if !ok {
 			return fmt.Errorf("block not found")
 		}
+		b.Lock()
 		if err := setHash(b, resps[i].Result[0].BlockHash); err != nil {
+			b.Unlock()
 			return fmt.Errorf("eth_getBlockReceipts: %w", err)
 		}
 		for j := range resps[i].Result {
 			if uint64(resps[i].Result[j].BlockNum) != blockNum {
+				b.Unlock()
 				return fmt.Errorf("eth_getBlockReceipts: receipt of block %d among receipts of block %d", resps[i].Result[j].BlockNum, blockNum)
 			}
 			if err := setHash(b, resps[i].Result[j].BlockHash); err != nil {
+				b.Unlock()
 				return fmt.Errorf("eth_getBlockReceipts: %w", err)
 			}
 			tx := b.Tx(uint64(resps[i].Result[j].TxIdx))
@@ -759,6 +763,7 @@ func (c *Client) receipts(ctx context.Context, url string, bm blockmap, start, l
 			tx.ContractAddress.Write(resps[i].Result[j].ContractAddress)
 			copy(tx.Logs, resps[i].Result[j].Logs)
 		}
+		b.Unlock()
 	}
 	return nil
 }
@@ -948,19 +953,23 @@ func (c *Client) traces(ctx context.Context, url string, bm blockmap, start, lim
 		if !ok {
 			return fmt.Errorf("missing block in block map")
 		}
+		block.Lock()
 		if err := setHash(block, res.Result[0].BlockHash); err != nil {
+			block.Unlock()
 			return fmt.Errorf("trace_block: %w", err)
 		}
 
 		var tracesByTx = map[key][]traceBlockResult{}
 		for i := range res.Result {
-			if res.Result[i].BlockNum != block.Num() {
-				return fmt.Errorf("trace_block: trace of block %d among traces of block %d", res.Result[i].BlockNum, block.Num())
+			if res.Result[i].BlockNum != uint64(block.Header.Number) {
+				block.Unlock()
+				return fmt.Errorf("trace_block: trace of block %d among traces of block %d", res.Result[i].BlockNum, uint64(block.Header.Number))
 			}
 			if err := setHash(block, res.Result[i].BlockHash); err != nil {
+				block.Unlock()
 				return fmt.Errorf("trace_block: %w", err)
 			}
-			k := key{block.Num(), uint64(res.Result[i].TxIdx)}
+			k := key{uint64(block.Header.Number), uint64(res.Result[i].TxIdx)}
 			if traces, ok := tracesByTx[k]; ok {
 				tracesByTx[k] = append(traces, res.Result[i])
 				continue
@@ -977,6 +986,7 @@ func (c *Client) traces(ctx context.Context, url string, bm blockmap, start, lim
 				tx.TraceActions[i] = ta
 			}
 		}
+		block.Unlock()
 	}
 	slog.DebugContext(ctx, "http-get-traces", "elapsed", time.Since(t0))
 	return nil
